@@ -283,11 +283,12 @@ func (w *World) Run(m *Msg, fault []int) (*Exec, *spec.Verdict) {
 		} else if fk == DepTrieRead && call.OK && ex.HitKey != "" && ex.HitReads == 1 {
 			// differential reading of "fail-soft": a failed read may be treated as "no value" and as
 			// nothing else. The oracle judges the call with that key absent; only forbidden successes
-			// are reported (a success that even an absent value does not justify), and only when the key
-			// was read once during the call (otherwise "absent" would have to be timed).
+			// (a success that even an absent value does not justify) and mismatches of role lists and
+			// create counters (authority must not survive a failed read) are reported, and only when the
+			// key was read once during the call (otherwise "absent" would have to be timed).
 			call.AbsentAddr, call.AbsentKey = ex.HitAddr, ex.HitKey
 			for _, v := range spec.Judge(call, w.Env(nd)).Viol {
-				if v.Clause == "forbidden-success" {
+				if v.Clause == "forbidden-success" || v.Clause == "role-list" || v.Clause == "counter" {
 					v.Detail += fmt.Sprintf(" [the read of key %q failed during this call; a failed read may only be taken as absent]", ex.HitKey)
 					w.violate(v)
 				}
@@ -312,7 +313,10 @@ func (w *World) Run(m *Msg, fault []int) (*Exec, *spec.Verdict) {
 		w.violate(spec.Violation{Props: spec.P("C13"), Clause: "input-modified", Detail: fmt.Sprintf("%s: %s (data %q)", ex.Func, ex.InputMut, m.Data)})
 	}
 	// allocation bound (C11): generous linear bound in input + touched state size
-	bound := uint64(1<<20) + 256*uint64(len(m.Data)+stateBytes(ex.Pre, m.Snd, m.Rcv))
+	// (linear in input + touched state, plus a quadratic term: the message encoder concatenates
+	// strings, which is quadratic in the input but not driven by a number taken from the arguments)
+	inLen := uint64(len(m.Data) + stateBytes(ex.Pre, m.Snd, m.Rcv))
+	bound := uint64(1<<20) + 256*inLen + inLen*inLen
 	if ex.Alloc > bound {
 		w.violate(spec.Violation{Props: spec.P("C11"), Clause: "allocation", Detail: fmt.Sprintf("%s allocated %d bytes for an input of %d bytes (bound %d): data %q", ex.Func, ex.Alloc, len(m.Data), bound, m.Data)})
 	}
@@ -383,6 +387,12 @@ func (w *World) checkActivation(nd *Node, fn string, active bool) {
 // builder method per argument.
 func Rebuild(fn string, args [][]byte, ops []string) string {
 	b := txDataBuilder.NewBuilder()
+	if len(ops) > len(args) && ops[len(args)] == "reuse" {
+		// a builder that was used before and cleared
+		b.Func("old").Str("junk").Int(7)
+		_ = b.ToString()
+		b.Clear()
+	}
 	b.Func(fn)
 	for i, a := range args {
 		op := "bytes"
@@ -404,11 +414,23 @@ func Rebuild(fn string, args [][]byte, ops []string) string {
 			}
 		case "str":
 			b.Str(string(a))
+		case "setlast":
+			// a placeholder is appended, the data is read once, then the last element is set
+			b.Bytes([]byte{0xee})
+			_ = b.ToString()
+			b.SetLast(hex.EncodeToString(a))
+			if b.GetLast() != hex.EncodeToString(a) {
+				return "GetLast disagrees with SetLast"
+			}
 		default:
 			b.Bytes(a)
 		}
 	}
-	return b.ToString()
+	out := b.ToString()
+	if string(b.ToBytes()) != out {
+		return "ToBytes disagrees with ToString"
+	}
+	return out
 }
 
 // CheckBuilt: a transaction string produced by the repository's tx-data builder must be the
